@@ -58,7 +58,6 @@ let w_s = function
   | WCl1 -> "Cl1" | WCl2 -> "Cl2" | WCl3 -> "Cl3" | WCl4 -> "Cl4"
   | WK1 -> "K1" | WK3 -> "K3" | WK4 -> "K4" | WK5 -> "K5" | WK5b -> "K5b" | WK6 -> "K6"
   | WScA -> "ScA" | WSc1 -> "Sc1" | WSc2 t -> "Sc2." ^ si (zi t) | WScF -> "ScF"
-  | WScH1 k -> "ScH1" ^ b01 k | WScH2 -> "ScH2" | WScH3 -> "ScH3" | WScH4 -> "ScH4"
   | WScRel -> "ScRel" | WScX -> "ScX" | WScX2 -> "ScX2"
   | WK7 -> "K7" | WEnd1 -> "End1" | WEnd2 -> "End2"
 
@@ -244,7 +243,6 @@ let trace c nw mode (evs : string list) : string =
                                (fun () -> pop th "App"))
                        | None -> None)
        | Some (WHwF _ | WWsF _ | WScF) -> send (function None -> CW i' | Some r -> CWSend (i', r))
-       | Some (WScH1 _) -> Some (CW i', (fun () -> if peek th "Keep" <> None then pop th "Keep"))
        | Some _ -> Some (CW i', nop)) in
   let visible ls = List.map label_s (if attrs then ls else List.filter (fun l -> not (is_attr l)) ls) in
   let fire th ch popf labs =
